@@ -11,6 +11,7 @@ lines allowed); 1 at least one unlisted violation (a line
 trouble (build failure, shard killed, time-out) -- inconclusive, never a
 violation.
 """
+import re
 import glob
 import json
 import os
@@ -48,11 +49,13 @@ OV_MCREW = dict(name="mcrew", files={
     "_overlay/mcrew/zz_verif_c14_test.go": "cmd/mcrew/zz_verif_c14_test.go",
     "_overlay/mcrew/zz_verif_c13_test.go": "cmd/mcrew/zz_verif_c13_test.go",
     "_overlay/mcrew/zz_verif_c09_test.go": "cmd/mcrew/zz_verif_c09_test.go",
+    "_overlay/mcrew/zz_verif_c07_test.go": "cmd/mcrew/zz_verif_c07_test.go",
     "_overlay/mcrew/zz_verif_util_test.go": "cmd/mcrew/zz_verif_util_test.go",
 })
 
 OV_MDB = dict(name="mdb", files={
     "_overlay/mdb/zz_verif_c13_test.go": "cmd/mdb/zz_verif_c13_test.go",
+    "_overlay/mdb/zz_verif_c07_test.go": "cmd/mdb/zz_verif_c07_test.go",
 })
 
 A_MATCH = ["the reference matcher (lib/refmatch), written from README/doc/rfc.md, is the oracle",
@@ -70,7 +73,14 @@ A_CORE = ["the executable step rule (lib/sm/refstep.go), written from README 'Pr
 reg("C04", "./checks/core", "^TestC04", assumptions=A_CORE, fuzz=[("./checks/core", "FuzzC04Step", 60)])
 reg("C05", "./checks/core", "^TestC05", assumptions=A_CORE)
 reg("C06", "./checks/core", "^TestC06", assumptions=A_CORE[2:] + ["native actions never mutate nested values in place (actions are documented as side-effect free)"])
-reg("C07", "./checks/core", "^TestC07", crash_is_violation=True, fuzz=[("./checks/core", "FuzzC07Total", 120)], assumptions=["a nil *State and Execution literals with nil Events are API misuse, not generated", "panics inside the third-party YAML parser on byte-level garbage are not searched for"])
+reg("C07", None, None)
+CHECKS["C07"]["parts"] = ["C07core", "C07mcrew", "C07mdb"]
+reg("C07core", "./checks/core", "^TestC07", crash_is_violation=True, fuzz=[("./checks/core", "FuzzC07Total", 120)], assumptions=["a nil *State and Execution literals with nil Events are API misuse, not generated", "panics inside the third-party YAML parser on byte-level garbage are not searched for"])
+CHECKS["C07core"]["subchecks"] = ["total", "loaders"]
+reg("C07mcrew", "./cmd/mcrew", "^TestC07", overlay=OV_MCREW, shards=(4, 16), crash_is_violation=True, assumptions=["mcrew: process requests are decoded from JSON into OpProcess and executed with OpProcess.Do, as the TCP / WebSocket / stdin listeners do"])
+CHECKS["C07mcrew"]["subchecks"] = ["mcrew"]
+reg("C07mdb", "./cmd/mdb", "^TestC07", overlay=OV_MDB, shards=(4, 16), crash_is_violation=True, assumptions=["mdb: machines are installed the way mdb's 'set' commands install them; Host.Process is also called with explicit control settings"])
+CHECKS["C07mdb"]["subchecks"] = ["mdb"]
 reg("C08", "./checks/core", "^TestC08", assumptions=A_CORE[2:] + ["the action model (lib/sm/actlang.go) says which emissions a completed action makes", "after a walk's deadline has passed a later action may complete or be cut short (both accepted)"])
 reg("C09", None, None)
 CHECKS["C09"]["parts"] = ["C09core", "C09sio", "C09mcrew"]
@@ -200,6 +210,13 @@ def prepare_overlay(cfg):
     os.makedirs(work, exist_ok=True)
     # alternative module file: /repo's go.mod + rapid
     mod = open(os.path.join(REPO, "go.mod")).read()
+    # The package under test must be compiled as the language version
+    # /repo's go.mod names (e.g. 1.20: one loop variable per loop, not per
+    # iteration).  The go command raises the version of this alternative
+    # module file to that of rapid's go.mod (1.23), so the compiler is told
+    # the language version of /repo's packages explicitly.
+    m = re.search(r"^go\s+(\d+\.\d+)", mod, re.M)
+    gover = m.group(1) if m else "1.20"
     mod += "\nrequire pgregory.net/rapid v1.3.0\nrequire verif v0.0.0\nreplace verif => %s\n" % ROOT
     modfile = os.path.join(work, "go.mod")
     with open(modfile, "w") as f:
@@ -214,7 +231,8 @@ def prepare_overlay(cfg):
     ovfile = os.path.join(work, "overlay.json")
     with open(ovfile, "w") as f:
         json.dump({"Replace": repl}, f)
-    return REPO, ["-modfile=" + modfile, "-overlay=" + ovfile]
+    return REPO, ["-modfile=" + modfile, "-overlay=" + ovfile,
+                  "-gcflags=github.com/Comcast/sheens/...=-lang=go" + gover]
 
 
 def merge_stats(paths):
